@@ -623,6 +623,15 @@ func (ex *Exec) evalCall(e *Expr, env *Env) Val {
 				unsup("contract: same() needs slices or strings")
 			}
 			return ex.boolV(ts.And(ts.Eq(x.Base, y.Base), ts.Eq(x.Off, y.Off), ts.Eq(x.Len, y.Len)))
+		case "streq":
+			// streq(a, b): the strings have the same content, stated through their ranks in the lexicographic order (an
+			// order embedding: equal ranks iff equal contents); cheap (quantifier free) where `==` is a quantified formula
+			x, okx := ex.eval1(args[0], env).(SliceV)
+			y, oky := ex.eval1(args[1], env).(SliceV)
+			if !okx || !oky {
+				unsup("contract: streq() needs strings")
+			}
+			return ex.boolV(ts.Eq(ex.strRank(x), ex.strRank(y)))
 		case "isfunc":
 			// isfunc(x, "name"): the function value x is the named function or method expression (e.g. "(*encoder).encodeString")
 			v := ex.eval1(args[0], env)
